@@ -179,7 +179,12 @@ func ExploreMux(c *mc.Ctx, sc MuxScenario, prop string) {
 	classes := map[string]int64{}
 	var sampled int32
 	sys := mc.Sys{NumOps: len(sc.Alpha), Run: func(hist []uint8) (string, bool) {
-		r := runMux(&sc, hist, c.Seed)
+		var r *muxRun
+		if p := mc.Catch(func() { r = runMux(&sc, hist, c.Seed) }); p != nil {
+			// a panic inside the Muxer on a history of valid calls violates every muxer property
+			c.Rep.Report("panic-in-muxer", map[string]any{"scenario": sc.Name, "period": sc.Period, "ops": histOps(&sc, hist), "message": fmt.Sprint(p), "kind": "mux-history"})
+			return "panic", false
+		}
 		last := len(r.Vs) - 1
 		for step, vs := range r.Vs {
 			// the set-up prefix is explored once (empty history); later only the last step
